@@ -100,6 +100,7 @@ func verifFail(id string) {
 
 func verifAssume(c bool) {
 	if !c {
+		fmt.Printf("VERIF-REPLAY-ASSUME-FAILED (printed when it happens, so that its order relative to assertion failures is kept)\n")
 		panic(verifAssumeFailed{})
 	}
 }
